@@ -754,4 +754,96 @@ example : channelCallsBy Mw.callSticky ⟨none⟩ [(some 100, plainPeer (some 50
 example : [(some 100, plainPeer (some 50)), (none, plainPeer none)].Perm
     [(none, plainPeer none), (some 100, plainPeer (some 50))] := List.Perm.swap _ _ _
 
+/-! ### Audit aC09: dimensions that must be invisible -/
+
+/-- "Unaffected if it finishes before that" for EVERY result of the call's own: one `GrpcTimeout`
+(either side) around something that ends with its own status `own` (OK or an error status) after
+`l`, or never — the caller has in hand exactly what the oracle's `report` says: `own` at `l` if the
+call finished by the shorter deadline, CANCELLED "Timeout expired" at that deadline otherwise. -/
+theorem C09_own_status_unaffected (own : Nat × Bytes) (h c l : Option Nat) :
+    seen own (stage h c (answer l)) =
+      Spec.Timeout.report own (Spec.Timeout.expected [h, c] l) := by
+  rw [← C09_stage_meets_spec]
+  cases stage h c (answer l) <;>
+    simp [seen, asExpect, Spec.Timeout.report, C09_status_is_cancelled_timeout_expired]
+
+/-- The same through the client stack against a peer that enforces nothing. -/
+theorem C09_own_status_unaffected_client (own : Nat × Bytes) (caller endpoint l : Option Nat) :
+    seen own (clientCall caller endpoint (plainPeer l)) =
+      Spec.Timeout.report own (Spec.Timeout.expected [caller, endpoint] l) := by
+  rw [← C09_client_cutoff_plain_peer]
+  cases clientCall caller endpoint (plainPeer l) <;>
+    simp [seen, asExpect, Spec.Timeout.report, C09_status_is_cancelled_timeout_expired]
+
+/-- `MakeSvc::call` leaves the `MakeSvc` as it was: accepting a connection changes nothing for the
+connections accepted later. -/
+theorem C09_accept_is_stateless (s : Srv) : (s.accept).1 = s ∧ (s.accept).2 = ⟨s.timeout⟩ :=
+  ⟨rfl, rfl⟩
+
+/-- One `transport::Server` (with or without `Server::timeout`), ANY number of connections in any
+accept order, any requests on each: every request is cut by its own header and `Server::timeout`,
+on the first connection and on every later one alike. -/
+theorem C09_server_connections_each_meet_spec (configured : Option Nat)
+    (conns : List (List (Option Nat × Option Nat))) :
+    (serverConns ⟨configured⟩ conns).map (·.map asExpect) =
+      Spec.Timeout.expectedConns configured conns := by
+  induction conns with
+  | nil => rfl
+  | cons reqs rest ih =>
+    simp only [serverConns, serverConnsBy, Srv.accept, List.map_cons,
+      Spec.Timeout.expectedConns] at ih ⊢
+    rw [ih]
+    congr 1
+    exact C09_connection_requests_each_meet_spec configured reqs
+
+/-- NOT the code: a `MakeSvc::call` that moves the timeout out (`self.timeout.take()`).  TARGET: -/
+def TakeConnsMeetSpec : Prop :=
+  ∀ (configured : Option Nat) (conns : List (List (Option Nat × Option Nat))),
+    (serverConnsBy Srv.acceptTake ⟨configured⟩ conns).map (·.map asExpect) =
+      Spec.Timeout.expectedConns configured conns
+
+/-- Witness: `Server::timeout(100)`, two connections, on each a request without grpc-timeout — the
+first answered after 50, the second after 350: the second connection has no timeout at all. -/
+theorem C09_take_on_accept_fails : ¬ TakeConnsMeetSpec := by
+  intro h
+  have := h (some 100) [[(none, some 50)], [(none, some 350)]]
+  revert this
+  decide
+
+/-- Why no single-connection case can see it. -/
+theorem C09_take_single_connection_agrees (s : Srv) (reqs : List (Option Nat × Option Nat)) :
+    serverConnsBy Srv.acceptTake s [reqs] = serverConns s [reqs] := rfl
+
+/-- A response future that changes hands (polled while pending by one task, then first polled by
+its new owner at `p`): for the new owner it is a future first polled at `p` — the hand-over is
+invisible. -/
+theorem C09_handover_is_late_poll (T l : Option Nat) (p : Nat) :
+    handoverBy true T l p = latePoll T l p := by
+  cases T <;> simp [handoverBy, latePoll, lateCut]
+
+/-- … and so meets the late-poll oracle: cut at `max T p` if still running then, its own result if
+it finished by the deadline. -/
+theorem C09_handover_meets_spec (h c l : Option Nat) (p : Nat) :
+    asExpect (handoverBy true (effective h c) l p) ∈ Spec.Timeout.lateExpected [h, c] l p := by
+  rw [C09_handover_is_late_poll]
+  exact C09_late_stage_meets_spec h c l p
+
+/-- NOT the code: a timer whose waker is registered by the first poll only.  Witness: deadline 100,
+the wrapped service never answers, the new owner polls at once — it is never woken. -/
+theorem C09_stale_timer_waker_fails :
+    ¬ ∀ (T l : Option Nat) (p : Nat),
+      asExpect (handoverBy false T l p) ∈ Spec.Timeout.lateExpected' T l p := by
+  intro h
+  have := h (some 100) none 0
+  revert this
+  decide
+
+example : seen (5, [110, 111]) (stage (some 100) none (answer (some 50))) = some (5, [110, 111], 50) := by decide
+example : serverConns ⟨some 100⟩ [[(none, some 50)], [(none, some 350)]] =
+    [[Done.inner 50], [Done.timeout 100]] := by decide
+example : serverConnsBy Srv.acceptTake ⟨some 100⟩ [[(none, some 50)], [(none, some 350)]] =
+    [[Done.inner 50], [Done.inner 350]] := by decide
+example : handoverBy true (some 100) none 0 = Done.timeout 100 ∧
+    handoverBy false (some 100) none 0 = Done.pending := by decide
+
 end C09
